@@ -1059,7 +1059,7 @@ evhttp_handle_chunked_read(struct evhttp_request *req, struct evbuffer *buf)
 			}
 			ntoread = evutil_strtoll(p, &endp, 16);
 			error = (*p == '\0' ||
-			    (*endp != '\0' && *endp != ' ') ||
+			    (*endp != '\0' && *endp != ' ' && *endp != ';') ||
 			    ntoread < 0);
 			mm_free(p);
 			if (error) {
